@@ -553,7 +553,10 @@ class ConnHarness:
             if ex is not None:
                 task_exc = type(ex).__name__
         ev = blank_event()
-        ev.update({"kind": "conn", "dispatched": [dict(r) for r in self.seen], "written": list(bytes(tr.written)),
+        seen, written = self.seen, bytes(tr.written)
+        if "Livelock" in loop_exc:                # keep the record small: the verdict is the livelock itself
+            seen, written = seen[:40], written[:4096]
+        ev.update({"kind": "conn", "dispatched": [dict(r) for r in seen], "written": list(written),
                    "closed": bool(tr.closing), "loopExc": loop_exc, "taskExc": task_exc})
         # tidy up: end the connection
         if "Livelock" in loop_exc:
@@ -579,7 +582,7 @@ class ConnHarness:
     def _settle(self) -> bool:
         """Run the loop until idle; False if it does not become idle within the step budget."""
         try:
-            self.loop.run_until_idle()
+            self.loop.run_until_idle(max_steps=30000)
             return True
         except RuntimeError as e:
             if "step budget" in str(e):
